@@ -281,30 +281,37 @@ func vcCell(mode string, cb, in, outp, reuse, tmo bool, meth string, arg, rep in
 	var bpeer int
 	if reuse {
 		bstat = " B=noslot"
-		// let the poller finish its batch and splice the freed slot back, then allocate until the slot comes back
-		for i := 0; i < 3; i++ {
-			poll.Trigger()
-			time.Sleep(300 * time.Microsecond)
+		// let the poller finish its batch and splice the freed slot back, then allocate until the slot comes back;
+		// on a loaded machine the poller may need several rounds (condition-based: up to ~1 s)
+		rounds := 1 // not torn down (peer close without callbacks): the slot is still the connection's, one look is enough
+		if atomic.LoadUint32(&c.closed) > 0 {
+			rounds = 40
 		}
-		var extra []*connection
-		var extraPeers []int
-		for i := 0; i < 16 && b == nil; i++ {
-			f2, p2 := vcPair()
-			nb := &connection{}
-			if err := nb.init(&netFD{fd: f2}, &options{}); err != nil {
-				syscall.Close(p2)
-				continue
+		for round := 0; round < rounds && b == nil; round++ {
+			for i := 0; i < 3; i++ {
+				poll.Trigger()
+				time.Sleep(time.Duration(300*(round+1)) * time.Microsecond)
 			}
-			if nb.operator == op {
-				b, bpeer = nb, p2
-			} else {
-				extra = append(extra, nb)
-				extraPeers = append(extraPeers, p2)
+			var extra []*connection
+			var extraPeers []int
+			for i := 0; i < 16 && b == nil; i++ {
+				f2, p2 := vcPair()
+				nb := &connection{}
+				if err := nb.init(&netFD{fd: f2}, &options{}); err != nil {
+					syscall.Close(p2)
+					continue
+				}
+				if nb.operator == op {
+					b, bpeer = nb, p2
+				} else {
+					extra = append(extra, nb)
+					extraPeers = append(extraPeers, p2)
+				}
 			}
-		}
-		for i, e := range extra {
-			e.Close()
-			syscall.Close(extraPeers[i])
+			for i, e := range extra {
+				e.Close()
+				syscall.Close(extraPeers[i])
+			}
 		}
 	}
 	outs := []string{}
@@ -315,7 +322,7 @@ func vcCell(mode string, cb, in, outp, reuse, tmo bool, meth string, arg, rep in
 		// the bystander must still receive data and close normally
 		bstat = " B=ok"
 		syscall.Write(bpeer, []byte("ping"))
-		b.SetReadTimeout(500 * time.Millisecond)
+		b.SetReadTimeout(3 * time.Second)
 		func() {
 			defer func() {
 				if r := recover(); r != nil {
